@@ -136,9 +136,8 @@ class ValueOrListConverter(UnionConverter):
     def into_data(self, val: t.Any) -> DataType:
         if not isinstance(val, ValueOrList):
             return into_data(val)
-        return t.cast(ValueOrList[t.Any], val).map(
-            lambda v: into_data(v, self.ty)
-        )._inner
+        # serialise with the element converter (built with this converter's handlers)
+        return t.cast(ValueOrList[t.Any], val).map(self.converters[0].into_data)._inner
 
 
 class YAMLDocList(list):  # type: ignore
